@@ -90,25 +90,25 @@ CLAIMED = {
 
 # clauses added after the seed rounds (rule ids: DESIGN.md section 4 lists each with its wording)
 ADDED = {
- "C01": "Also: Lexer.ReadBytes returns memory it owns (never the bufio Peek slice); the xref-stream read position accumulates over all /Index subsections; inheritable attributes are answered only from the page dictionary or a /Parent ancestor (no table filled during traversal); role-name agreement of arguments and fields (row/col, start/end, src/dst ...). On the re-entrant resolution cycle every parser reads through input state created for that parse (no buffered reader or lexer kept on the Reader).",
+ "C01": "Also: Lexer.ReadBytes returns memory it owns (never the bufio Peek slice); the xref-stream read position accumulates over all /Index subsections; inheritable attributes are answered only from the page dictionary or a /Parent ancestor (no table filled during traversal); role-name agreement of arguments and fields (row/col, start/end, src/dst ...). On the re-entrant resolution cycle every parser reads through input state created for that parse (no buffered reader or lexer kept on the Reader). A work list that replaces the recursive page-tree walk keeps depth-first left-to-right order; a one-element /Filter array is unwrapped only together with /DecodeParms.",
  "C02": "Also: no loop counts an unsigned counter up to an inclusive non-constant bound; numbers parsed from text index slices only under 0 <= i < len; the visited set of the page-tree walk is never deleted from; the object-stream offset table is indexed under len(offsets), not /N; role-name agreement. An index guarded by a comparison with the slice length is implied to be in range by that guard (cursor followed through its increments); every loop that takes the single /Prev step keeps a visited set; unlisted recursive cycles are accepted only with a structural guard or as descent of an in-memory structure.",
  "C03": "Also: no package-level map/slice is stored into a field of a per-document object; an HTML exclusion checker's mode is assigned only by its constructor and no checker is kept in the Reader. A lazily loaded field is not left set when the load fails; a PDF dictionary is written only by the function that created it; a method that probes and fills a cache map uses the same key for both.",
  "C04": "Also: the xref-stream read position accumulates over all /Index subsections; Reader.resolveDeep writes only into containers it created (cached objects are not modified). The cross-reference parsers and the merge record every entry whatever its kind (no skip depending on the entry's content); parser input state is per parse on the re-entrant cycle.",
- "C05": "Also: no 8/16-bit sum is divided or shifted before widening in the filters; the ASCII85 decoder uses the constants 85, 33, 'z', '~' and the padding digit 84. Data read through io.LimitReader is compared with the limit (no silent truncation of a decoded stream).",
+ "C05": "Also: no 8/16-bit sum is divided or shifted before widening in the filters; the ASCII85 decoder uses the constants 85, 33, 'z', '~' and the padding digit 84. Data read through io.LimitReader is compared with the limit (no silent truncation of a decoded stream). A one-element /Filter array is unwrapped only together with /DecodeParms.",
  "C06": "Also: the operator-start and operator-continue byte sets are computed by evaluating the SSA of parseNext/parseOperator over all 256 byte values (independent of how the tests are spelled); both dictionary parsers store every parsed entry unconditionally; reals are strconv.ParseFloat results in both parsers. The nesting counter of the array/dictionary parsers is restored exactly once on every successful return.",
  "C07": "Also: NormalizeUnicode returns norm.NFC.String(s) or s under IsNormalString on every path; shown text is decoded on the spot, not taken from a map of earlier results; bfrange multi-unit destinations advance as 16-bit units. The observed code width (actualByteWidth) is measured on the source-code strings of bfchar/bfrange entries, never on the destination string. A multi-byte value assembled from consecutive bytes uses each position and each shift once.",
  "C08": "The transformer proof is path-sensitive for loop-free functions: each path is checked with its `operand == constant` guards substituted, and abs() is an uninterpreted symbol (a fast path or a sign change that disagrees with ISO 32000 on the operands it applies to is a violation).",
  "C09": "Also: the regrouping and assembly functions copy element text unmodified (no trimming by cut set, replacement or sub-string) and never write through their input slices.",
  "C10": "Also: FilterFragments receives the 0-based source page index (an element of the resolved list, no arithmetic, no loop position); every flag ensureReader sets is cleared by Close; the page separator is written only after earlier output.",
  "C11": "Also: the DOCX/ODT paragraph exclusion is a whole-line equality (no substring test); a header region deletes only inside the header band and a footer region only inside the footer band; FilterFragments receives the 0-based source page index.",
- "C12": "Also: the section path is maintained with the level of each entry (closing by level, fresh storage when it grows); the size splitter leaves its loop only with nothing left or after appending the rest. A flush closure called from a loop clears every accumulator it hands on; buildSections closes open sections by comparing their recorded level with the new heading's in a loop.",
+ "C12": "Also: the section path is maintained with the level of each entry (closing by level, fresh storage when it grows); the size splitter leaves its loop only with nothing left or after appending the rest. A flush closure called from a loop clears every accumulator it hands on; buildSections closes open sections by comparing their recorded level with the new heading's in a loop. A work list that replaces the recursive section walk keeps depth-first left-to-right order.",
  "C13": "Also: the split loop drains (no counter-bounded exit); the boundary-search result is compared with the position of the hard maximum before cutting; the sentence splitter advances its index one step per trip.",
- "C14": "Also: csv.Writer.UseCRLF is never set; Export has no shortcut for an empty collection. Each field of the exported record with a namesake in Chunk/ChunkMetadata is a plain copy of it (never the slice position or a default).",
+ "C14": "Also: csv.Writer.UseCRLF is never set; Export has no shortcut for an empty collection. Each field of the exported record with a namesake in Chunk/ChunkMetadata is a plain copy of it (never the slice position or a default). A scan of a slice that stops short of its end also looks at the remaining elements.",
  "C15": "Also: the escape-state dataflow is order-sensitive (escaping backslashes after pipes un-escapes the pipes).",
  "C16": "Also: streaming token walks that record elements by name consume the subtree or test the nesting depth; the resolver's cached ResolvedStyle is never written by the readers; role-name agreement (rows/cols of spans). The DOCX body/table/row/cell decoders and the ODT table/cell/list/list-item decoders have a field or dispatch label for every text-carrying block-level child of the content model, including the grouping wrappers (content controls, custom XML, header-row and row groups). XML is decoded into storage allocated by the same loop trip (a destination declared before the loop accumulates earlier elements).",
  "C17": "Also: XML is decoded into storage allocated in the same function in every reader; row/column indices into a sheet cropped to its content bounds derive from minRow/minCol; role-name agreement (start/end row/col of merges).",
- "C18": "Also: the EPUB base directory is the directory of the package file (path.Dir / last '/'), never a cut at the first '/'. A parallel list filtered while ranging over the declared list is never indexed with the declared list's counter; the r:id -> target tables are filled regardless of how the target is spelled.",
- "C19": "Also: the filtered traversal writes nothing through the Reader; the exclusion decision is consulted only by the filtered traversal; a checker's mode is set only by its constructor and no checker outlives its pass. Element kinds that getDirectTextContent leaves out of a list item's text are descended into by the li case (evaluated over the tag names); parseTable/row parsers have a branch for every row group (thead, tbody, tfoot, tr) and cell kind (td, th) of the HTML table model; the EPUB reader hands each of the four exclusion modes to the HTML reader unchanged (evaluated over the four values).",
+ "C18": "Also: the EPUB base directory is the directory of the package file (path.Dir / last '/'), never a cut at the first '/'. A parallel list filtered while ranging over the declared list is never indexed with the declared list's counter; the r:id -> target tables are filled regardless of how the target is spelled. A part name is never trimmed with a multi-character cut set; a worksheet part is guessed from the tab position only when no target is declared.",
+ "C19": "Also: the filtered traversal writes nothing through the Reader; the exclusion decision is consulted only by the filtered traversal; a checker's mode is set only by its constructor and no checker outlives its pass. Element kinds that getDirectTextContent leaves out of a list item's text are descended into by the li case (evaluated over the tag names); parseTable/row parsers have a branch for every row group (thead, tbody, tfoot, tr) and cell kind (td, th) of the HTML table model; the EPUB reader hands each of the four exclusion modes to the HTML reader unchanged (evaluated over the four values). Text of a parsed HTML node is not unescaped a second time; every nested list of an item is descended into (the call sits in the loop over the children).",
  "C20": "Also: signatures are tested at offset 0 of the leading block, never searched for; the DRM verdict for an encrypted content document depends on no algorithm test other than the two font-obfuscation exemptions. Data read through io.LimitReader is compared with the limit (a truncated encryption.xml is not misjudged).",
 }
 
